@@ -75,23 +75,16 @@ Theorem C06_only_accept_or_reject_refuted :
 Proof. eexists. split; [vm_compute; reflexivity|]. split; vm_compute; reflexivity. Qed.
 Print Assumptions C06_only_accept_or_reject_refuted.
 
-(* known finding F9h on the model: on a non-convex scenario the outcome of the closure depends on the order in which the
-   worklist hands out the simulators (Python: set.pop()), and for some orders it does not settle: the six simulators of the
-   witness (three in a group, two in a nested group, one outside) taken in the order 0..5 are rejected with a cycle; taken in
-   the order 4,0,2,3,5,1 the loop is still running after 3000 iterations (two delays of equal tiers and different cutoff keep
-   replacing each other, the recorded paths grow without bound; the bound 3000 is what is proved here). *)
-Definition f9h_flags (k : nat) : cflags :=
-  match k with
-  | 0%nat => mkF true true true false true 0 false false true      (* plain *)
-  | 1%nat => mkF true true true false true 0 true true true        (* weak, with initial data *)
-  | _ => mkF true true true false true 1 false true true           (* time-shifted, with initial data *)
-  end.
-Definition f9h_cn (a b k : nat) := mkConn a b 2 0 (f9h_flags k) false 7.
-Definition f9h_conns : list conn :=
-  [f9h_cn 3 4 1; f9h_cn 2 4 0; f9h_cn 3 0 2; f9h_cn 5 4 0; f9h_cn 0 2 0; f9h_cn 4 0 0; f9h_cn 2 0 1; f9h_cn 1 2 1; f9h_cn 1 5 0; f9h_cn 2 3 0; f9h_cn 0 1 0].
-Theorem C06_verdict_independent_of_worklist_order_refuted :
-  exists t, build [None; Some 0%nat; Some 1%nat] (fun i => match i with 0 | 1 | 2 => 1 | 3 | 4 => 2 | _ => 0 end%nat) f9h_conns = BOk t /\
-            (exists p, cycle_check 3000 (t_indel t) [0; 1; 2; 3; 4; 5]%nat = CycRejected p) /\
-            cycle_check 3000 (t_indel t) [4; 0; 2; 3; 5; 1]%nat = CycFuel.
-Proof. eexists. split; [vm_compute; reflexivity|]. split; [eexists|]; vm_compute; reflexivity. Qed.
-Print Assumptions C06_verdict_independent_of_worklist_order_refuted.
+(* known finding F9h as a theorem about the model (Static/F9h.v): on a non-convex scenario the closure loop of the cycle check need
+   not terminate, and whether it does depends on the order in which the worklist hands out the simulators (Python: set.pop()).
+   The six simulators of the witness (three in a group, two in a nested group, one outside) taken in the order 0..5 are rejected
+   with a cycle; taken in the order 4,0,2,3,5,1 the loop never ends: its control flow does not look at the recorded paths, the
+   path-free image of its state after 60 iterations comes back 8 iterations later (two delays of equal tiers and different cutoff
+   keep replacing each other), so it is alive after any number of iterations - the check runs out of EVERY amount of fuel. *)
+From MV Require Static.F9h.
+Theorem C06_closure_terminates_refuted :
+  (exists t, Static.F9h.f9h_build = BOk t /\ t_indel t = Static.F9h.f9h_ind) /\
+  (forall fuel, cycle_check fuel Static.F9h.f9h_ind [4; 0; 2; 3; 5; 1]%nat = CycFuel) /\
+  (exists p, cycle_check 100 Static.F9h.f9h_ind [0; 1; 2; 3; 4; 5]%nat = CycRejected p).
+Proof. split; [exact Static.F9h.f9h_builds|]. split; [exact Static.F9h.f9h_closure_never_ends|exact Static.F9h.f9h_other_order_rejects]. Qed.
+Print Assumptions C06_closure_terminates_refuted.
